@@ -43,6 +43,7 @@ struct Gen {
       if (oor) r.setf("t", g.chance(0.5) ? -0.001 - g.unit() : time_of(sr.total, 0) + 0.001 + g.unit());
       else { int64_t pos = pick_pos(); if (pos >= sr.total) pos = std::max<int64_t>(0, sr.total - 1); r.setf("t", time_of(pos, g.chance(0.5) ? 0.0 : g.unit() * 0.999)); }
     }
+    if (!oor && g.chance(0.05)) r.set("attell", 1);   // seek to where the handle says it is (resolved when the op is executed)
   }
   void read_op(double p_int = 0.25, int maxrep = 4) {
     if (g.chance(p_int)) {
